@@ -24,6 +24,12 @@ BODIES = {
     "looks-like-utf8": "<OFX><A>CAF\u00c3\u00a9 \u00c2\u00a35</A><B><C>\u00c3\u00bc</C></B></OFX>",
     "multiline": "<OFX>\r\n<A>x\r\n<B>\r\n<C>café\r\n</B>\r\n</OFX>",
 }
+# bodies longer than any read-ahead / block size a reader might use (4 KiB ... 128 KiB), multi-byte characters at every
+# alignment: 2-, 3- and 4-byte UTF-8 sequences in a 9-byte period, shifted by 0..3 ASCII characters
+for _k in range(4):
+    BODIES[f"long-utf8-{_k}"] = "<OFX><A>" + "x" * _k + "\u00e9\u20ac\U0001F4B0" * 16000 + "</A><B><C>z</C></B></OFX>"
+BODIES["long-latin"] = "<OFX><A>" + "caf\u00e9 " * 30000 + "</A><B><C>z</C></B></OFX>"
+LONG = [b for b in BODIES if b.startswith("long-")]
 SEPS = ["\r\n", "\n", "\r", ""]
 GAPS = ["\r\n\r\n", "", "\n", "\r\n", "\r", "\r\n\r\n\r\n"]
 LEADS = ["", "\r\n", "\n\n"]
@@ -59,6 +65,13 @@ def layout_class(seps, gap, lead):
 
 
 def v1_case(t, hd, OFXTree, params):
+    if len(params) == 13:
+        # the same file with the library's loggers at DEBUG (a formatting handler attached): what is handed over must not
+        # depend on the logging configuration
+        from vf.checks import c06
+
+        with c06.verbose_logging({"loglevel": "DEBUG"}):
+            return v1_case(t, hd, OFXTree, params[:12])
     version, security, encoding, charset, compression, old, new, seps, blanks, lead, gap, bodyname = params
     t.count("evaluations")
     fields = H.v1_fields(version, security, encoding, charset, "NONE", old, new)
@@ -116,6 +129,11 @@ def v1_work(chunk):
 
 
 def v2_case(t, hd, OFXTree, params):
+    if len(params) == 12:
+        from vf.checks import c06
+
+        with c06.verbose_logging({"loglevel": "DEBUG"}):
+            return v2_case(t, hd, OFXTree, params[:11])
     version, security, old, new, quote, standalone, encattr, br1, br2, lead, bodyname = params
     t.count("evaluations")
     fields = H.v2_fields(version, security, old, new)
@@ -188,10 +206,11 @@ def run(ctx):
         ref_sgml.build(b)
     seed = ctx.seed
     uid_a = ["NONE", "p0rky-p1g_", "0" * 36][seed % 3]
-    uid_b = ["NONE", "d0n41d-duck", "Z" * 36][(seed + 1) % 3]
+    uid_b = ["d0n41d_duck-1", "_" + "Z" * 34 + "_", "20240131_000123"][(seed + 1) % 3]  # always one with an underscore
     jobs = []
     versions = H.SUPPORTED_V1
-    charset_bodies = [(cs, b) for cs in H.CODECS for b in BODIES if encodable(b, cs)]
+    charset_bodies = [(cs, b) for cs in H.CODECS for b in BODIES if b not in LONG and encodable(b, cs)]
+    long_bodies = [(cs, b) for cs in H.CODECS for b in LONG if encodable(b, cs)]
     # (1) full product of the uniform layouts
     for sep in SEPS:
         for blanks in (0, 1, 2):
@@ -222,6 +241,12 @@ def run(ctx):
             for gap in (GAPS if ctx.thorough else GAPS[:4]):
                 for cs, b in (("NONE", "ascii"), ("1252", "cp1252"), ("NONE", "utf8")):
                     jobs.append((102, "NONE", "USASCII", cs, True, "NONE", "NONE", seps, 0, "", gap, b))
+    # (4) long bodies: standard, one-line and CR-only layouts x UID lengths (shifting where the body starts)
+    for cs, b in long_bodies:
+        for sep, gap in (("\r\n", "\r\n\r\n"), ("", ""), ("\r", "\r")):
+            for new in ("NONE", "1", "22", "333"):
+                jobs.append((102, "NONE", "USASCII", cs, True, "NONE", new, tuple([sep] * 8), 0, "", gap, b))
+    jobs += [j[:-1] + (j[-1], "DEBUG") for j in jobs[:: 7]] + [j[:-1] + (j[-1], "DEBUG") for j in jobs if j[-1] in LONG]
     tally = ctx.pmap(v1_work, jobs)
     n1 = len(jobs)
     # v2
@@ -235,6 +260,11 @@ def run(ctx):
                             for lead in ("", "\r\n", "\n"):
                                 for b in ("ascii", "eacute", "utf8", "multiline"):
                                     jobs2.append((ver, ("NONE", "TYPE1")[len(br1) % 2], uid_a, uid_b, quote, standalone, encattr, br1, br2, lead, b))
+    for b in LONG:
+        for br1, br2 in (("\r\n", "\r\n"), ("", ""), ("\n", "")):
+            for new in ("NONE", "1", "22", "333"):
+                jobs2.append((203, "NONE", "NONE", new, '"', True, True, br1, br2, "", b))
+    jobs2 += [j + ("DEBUG",) for j in jobs2[:: 7]] + [j + ("DEBUG",) for j in jobs2 if j[-1] in LONG]
     tally.merge(ctx.pmap(v2_work, jobs2))
     tree_checks(tally, hd, OFXTree)
     if not tally.fails:
@@ -250,7 +280,7 @@ def run(ctx):
         "{blank line,none,LF,CRLF,CR,two blank lines} x COMPRESSION present/absent x every (charset, body) pair encodable (7 bodies: ascii, e-acute, text whose single-byte encoding is valid UTF-8, "
         "cp1252-only, C1 control, UTF-8 multi-byte, multi-line) with encoding/version/security rotating; all field-value combinations on the standard layout; "
         "separators deviating at <=2 of 8 boundaries from each uniform layout x gaps x 3 bodies; v2: 7 versions x quote x standalone x encoding attr x "
-        "breaks x leading blank line x 4 bodies; each file is a distinct byte string (all but the library's own canonical layout non-trivial)",
+        "breaks x leading blank line x 4 bodies; 5 long bodies (144-180 KB, 2/3/4-byte characters at every alignment) x 3 layouts x 4 UID lengths; every 7th file and every long one again with the library's loggers at DEBUG; each file is a distinct byte string (all but the library's own canonical layout non-trivial)",
         "v1_files": n1,
         "v2_files": len(jobs2),
         "exhaustive": True,
